@@ -20,6 +20,7 @@ package main
 
 import (
 	"fmt"
+	"go/types"
 	"math/big"
 	"strings"
 
@@ -137,8 +138,85 @@ func checkTree(ctx *Ctx, r *Report, ts treeSpec) {
 		r.undecided("Q2", ts.label, pfn.Pos(), err.Error())
 	}
 	emptyKey := ""
+	// The tree walk is either recursive (the cube is the parameter c) or driven by an explicit
+	// worklist (the cube is the element popped from a stack, the children are pushed). The
+	// second form is read as the first: atoms of the popped cube are renamed to c.*, the
+	// loop's own "worklist not empty" test is dropped from the conditions, and every pushed cube
+	// counts as one recursive call under the condition of its push.
+	cur := "c"
 	for _, e := range eventsOf(ev, ".isEmpty") {
-		_ = e
+		for _, a := range e.Args {
+			if sy, ok := a.(*Sym); ok && sy.Path != "dc" && !strings.HasPrefix(sy.Path, "dc.") {
+				cur = sy.Path
+			}
+			if tp, ok := a.(*Tuple); ok && len(tp.Elems) == 2 {
+				if sy, ok := tp.Elems[0].(*Sym); ok && sy.Path != "dc" {
+					cur = sy.Path
+				}
+				// a copy of the popped cube in a local variable: named after what was copied
+				pv := tp.Elems[1]
+				if sy, ok := pv.(*Sym); ok && sy.Path != "dc" && !strings.HasPrefix(sy.Path, "dc.") {
+					if _, isPtr := tp.Elems[0].(*Ptr); isPtr {
+						cur = sy.Path
+					}
+				}
+				if nv, ok := fieldOf(pv, "n"); ok {
+					if nt, ok := nv.(*Term); ok && nt.Op == "a" && strings.HasSuffix(nt.S, ".n") {
+						cur = strings.TrimSuffix(nt.S, ".n")
+					}
+				}
+			}
+		}
+	}
+	worklist := cur != "c"
+	rename := func(t *Term) *Term {
+		if !worklist || t == nil {
+			return t
+		}
+		return rebuild(t, func(x *Term) *Term {
+			if x.Op == "a" && strings.HasPrefix(x.S, cur+".") {
+				return A("c." + strings.TrimPrefix(x.S, cur+"."))
+			}
+			if x.Op == "call" && strings.HasSuffix(x.S, ".isEmpty") {
+				return Call(x.S, A("dc"), A("c")) // one emptiness test per cube, whatever the cube is called
+			}
+			return nil
+		})
+	}
+	var renameVal func(v Val) Val
+	renameVal = func(v Val) Val {
+		switch x := v.(type) {
+		case *Term:
+			return rename(x)
+		case *Agg:
+			out := &Agg{T: x.T}
+			for _, e := range x.Elems {
+				out.Elems = append(out.Elems, renameVal(e))
+			}
+			return out
+		}
+		return v
+	}
+	loopFree := func(c *Term) *Term {
+		if !worklist || c == nil {
+			return c
+		}
+		var keep *Term
+		cs := conjuncts(c)
+		for i := len(cs) - 1; i >= 0; i-- {
+			if strings.Contains(cs[i].Key(), "len(") {
+				continue // the worklist's own emptiness test
+			}
+			if keep == nil {
+				keep = cs[i]
+			} else {
+				keep = Ite(cs[i], keep, K(0))
+			}
+		}
+		if keep == nil {
+			return K(1)
+		}
+		return keep
 	}
 	isEmptyCall := func(c *Term) *Term {
 		subs := findSub(c, func(x *Term) bool { return x.Op == "call" && strings.HasSuffix(x.S, ".isEmpty") })
@@ -160,7 +238,7 @@ func checkTree(ctx *Ctx, r *Report, ts treeSpec) {
 	}
 	if cm != nil {
 		ks := eventsOf(ev, "."+ts.kernel)
-		leafCond := ks[0].Cond
+		leafCond := loopFree(rename(ks[0].Cond))
 		okLeaf := notWhenEmpty(leafCond)
 		// under not-empty the leaf condition must be c.n == 1
 		lvl := ""
@@ -176,6 +254,20 @@ func checkTree(ctx *Ctx, r *Report, ts treeSpec) {
 	for _, e := range ev.Events {
 		if strings.HasPrefix(e.Callee, "rec:") {
 			recs = append(recs, e)
+		}
+	}
+	if worklist {
+		for _, e := range eventsOf(ev, "append") {
+			for _, v := range appendedVals(e) {
+				cv := cubeArg(e, v)
+				if cv == nil {
+					continue
+				}
+				if _, ok := fieldOf(cv, "n"); !ok {
+					continue
+				}
+				recs = append(recs, Event{Callee: "rec:worklist-push", Args: []Val{nil, renameVal(cv)}, Cond: loopFree(rename(e.Cond)), State: e.State, Pos: e.Pos})
+			}
 		}
 	}
 	want := 1 << ts.dim
@@ -279,7 +371,19 @@ func condStr(c *Term) string {
 }
 
 func checkIsEmpty(ctx *Ctx, r *Report, efn *ssa.Function, dim int, label string) {
-	ev := newEval(ctx, "evaluate")
+	// the distance comes from an accessor of the cache (evaluate, or a helper it was split
+	// into): methods of the same receiver called here are kept opaque, the lattice point is
+	// their argument (that the accessor returns the shape's distance there is V3 of C06)
+	opaque := []string{"evaluate"}
+	allInstrs(efn, func(b *ssa.BasicBlock, ins ssa.Instruction) {
+		if c, ok := ins.(*ssa.Call); ok {
+			if f := c.Call.StaticCallee(); f != nil && inModule(f) && f.Signature.Recv() != nil && efn.Signature.Recv() != nil &&
+				types.Identical(f.Signature.Recv().Type(), efn.Signature.Recv().Type()) {
+				opaque = append(opaque, f.Name())
+			}
+		}
+	})
+	ev := newEval(ctx, opaque...)
 	res, _ := ev.evalRoot(efn)
 	t, _ := res.(*Term)
 	if t == nil || t.Op != "cmp" {
@@ -301,7 +405,14 @@ func checkIsEmpty(ctx *Ctx, r *Report, efn *ssa.Function, dim int, label string)
 	r.check("Q3", label+"|threshold-index", efn.Pos(), okIdx, "threshold must be hdiag[c.n] (the half diagonal of this cube's own level); found "+shortKey(thr.Key(), 120))
 	// centre
 	d := l.Args[0]
-	okC := d.Op == "call" && strings.HasSuffix(d.S, ".evaluate#1") && len(d.Args) > 0
+	okC := d.Op == "call" && len(d.Args) > 0 && func() bool {
+		for _, o := range opaque {
+			if strings.HasSuffix(d.S, "."+o+"#1") || strings.HasSuffix(d.S, "."+o) {
+				return true
+			}
+		}
+		return false
+	}()
 	if okC {
 		a := d.Args[len(d.Args)-1]
 		okC = a.Op == "agg" && len(a.Args) == dim
